@@ -319,6 +319,9 @@ func runCheck(id, tier string) int {
 					"-seed", strconv.FormatInt(seed, 10), "-out", out)
 				cmd.Env = append(os.Environ(), "VERIF_INFLIGHT="+infl, "VERIF_POISON="+strings.Join(poison, ","), "GOMAXPROCS=2",
 					"VERIF_CLI="+b.CLI, "VERIF_SCRATCH="+scratch)
+				if b.Instr != nil && b.Instr.FileAPI {
+					cmd.Env = append(cmd.Env, "VERIF_MATERIALIZE="+filepath.Join(scratch, fmt.Sprintf("files-%d", s)))
+				}
 				var se bytes.Buffer
 				cmd.Stderr = &se
 				cmd.Stdout = &se
